@@ -569,6 +569,8 @@ func init() {
 			})
 			c.Note("corpus cases run first: %d", n)
 			c11Wiring(c)
+			c11DaemonStage(c)
+			c11Sequences(c)
 			sets := c11CredSets(c)
 			setNames := []string{"none", "one", "several"}
 			// all method lists of length ≤ 3 over the alphabet
@@ -682,6 +684,18 @@ func init() {
 			}
 		},
 		Replay: func(c *core.Ctx, raw json.RawMessage) {
+			var probe struct {
+				Kind string `json:"kind"`
+			}
+			if json.Unmarshal(raw, &probe) == nil && (probe.Kind == "daemon" || probe.Kind == "sequence") {
+				// daemon wiring / negotiation sequences on one listener: the stages are deterministic, re-run them whole
+				if probe.Kind == "daemon" {
+					c11DaemonStage(c)
+				} else {
+					c11Sequences(c)
+				}
+				return
+			}
 			var k c11Case
 			if json.Unmarshal(raw, &k) == nil && k.Transcript != "" {
 				c11Run(c, k)
